@@ -48,7 +48,7 @@ def matrix(tier):
     # documents larger than any I/O buffer, multi-byte characters at every alignment (block-wise decoding, chunked writes)
     head = [["ns", 0, p, u] for p, u in c07.NSS]
     for shift in range(3):
-        big = "x" * shift + "漢é" * 9000
+        big = "x" * shift + "漢é" * 30000
         yield {"profile": "rdf", "ops": head + [["rec", 0, "entity", {"ns": c07.NSS[0][1], "local": "big", "prefix": "ex", "as": "qn"}, {},
                                                   [[{"ns": c07.NSS[0][1], "local": "k", "prefix": "ex", "as": "qn"}, {"k": "str", "v": big}]], "factory"]],
                "nonascii": "漢" * 3000 + "é", "cell": ["big", shift]}
